@@ -73,7 +73,19 @@ def G3():
     return wn
 
 
-GRAPHS = {'G1': G1, 'G2': G2, 'G3': G3}
+def G4():
+    """two single-junction dead ends of the same size behind their own pipes (one can be reconnected while the other is cut off)"""
+    wn = wntr.network.WaterNetworkModel()
+    wn.add_reservoir('R', base_head=60.0)
+    for n in ('J1', 'JA', 'JB'):
+        wn.add_junction(n, base_demand=0.01, elevation=1.0)
+    wn.add_pipe('P1', 'R', 'J1')
+    wn.add_pipe('PA', 'J1', 'JA')
+    wn.add_pipe('PB', 'JB', 'J1')
+    return wn
+
+
+GRAPHS = {'G1': G1, 'G2': G2, 'G3': G3, 'G4': G4}
 
 
 def reachable(wn):
@@ -96,6 +108,8 @@ def reachable(wn):
 
 def build(V, cfg):
     wn = GRAPHS[cfg['graph']]()
+    if cfg.get('pdd'):
+        wn.options.hydraulic.demand_model = 'PDD'
     t = wn.options.time
     t.hydraulic_timestep = t.rule_timestep = cfg['H']
     t.report_timestep = 'ALL'
@@ -149,6 +163,9 @@ CFGS_QUICK = [
     dict(name='G2-reopen-dead-end', graph='G2', H=3600, dur=2 * 3600, sym_links=['PB', 'P3'], controls=[('P4', 0), ('P4', 1)]),
     dict(name='G1-tcv-in-cut-off-region', graph='G1', H=3600, dur=3600, sym_links=['PA', 'PB', 'P4'], closed=['P5'], controls=[('P1', 0), ('P1', 1)]),
     dict(name='G3-shared-ids', graph='G3', H=3600, dur=2 * 3600, sym_links=['11', '7'], controls=[('12', 0), ('12', 1)]),
+    dict(name='G4-swap-equal-parts', graph='G4', H=3600, dur=2 * 3600, sym_links=[], closed=['PA'], controls=[('PA', 1), ('PB', 0)]),
+    dict(name='G1-static-pdd', graph='G1', pdd=True, H=3600, dur=0, sym_links=['P1', 'PA', 'PB', 'P3', 'P5'], controls=[]),
+    dict(name='G2-reopen-dead-end-pdd', graph='G2', pdd=True, H=3600, dur=2 * 3600, sym_links=['PB'], controls=[('P4', 0), ('P4', 1)]),
     dict(name='G2-toggle', graph='G2', H=1800, dur=3600, sym_links=['PA', 'PC', 'P3'], controls=[('PB', 0), ('PB', 1)]),
 ]
 CFGS_THOROUGH = CFGS_QUICK + [
